@@ -700,15 +700,6 @@ impl Check for C08 {
                             }
                         }
                     }
-                    Ev::Snapshot(s) => {
-                        // the peer must be forgotten within 60 s
-                        for (c, (_, t0, why)) in &invalid_hs {
-                            let addr = &v.conns[c].addr;
-                            if now > t0 + 60_000 && s.peers.iter().any(|p| &p.addr == addr) && v.conn_of_addr_at(addr, seq) == Some(*c) {
-                                vd.fail("C08", "C08.not-forgotten", format!("conn {} ({}) still known 60 s after its invalid handshake ({})", c, addr, why), seq);
-                            }
-                        }
-                    }
                     _ => {}
                 },
                 _ => {}
@@ -725,6 +716,16 @@ impl Check for C08 {
             };
             if !ok {
                 vd.fail("C08", "C08.not-closed", format!("conn {} ({}) not closed within 60 s of its invalid handshake ({})", c, info.addr, why), *s0);
+            }
+            // forgotten: the manager handled the end of this peer (a later entry under the same
+            // address belongs to a new dial)
+            let killed = v.out.entries.iter().find(|e| e.seq > *s0 && matches!(&e.ev, Ev::KillReq { addr, .. } if *addr == info.addr)).map(|e| e.t_ms);
+            let ok = match killed {
+                Some(t) => t <= limit,
+                None => v.out.end_ms < limit,
+            };
+            if !ok {
+                vd.fail("C08", "C08.not-forgotten", format!("conn {} ({}) still registered 60 s after its invalid handshake ({})", c, info.addr, why), *s0);
             }
         }
         let odd = v.conns.values().filter(|c| c.peer.as_ref().and_then(|n| v.plan.peers.iter().find(|p| &p.name == n)).map(|p| p.hs != crate::plan::Hs::Ok || p.script.iter().any(|s| matches!(&s.act, crate::plan::Act::Send(Msg::Handshake { .. })))).unwrap_or(false)).count();
